@@ -26,9 +26,10 @@ import vlib
 THEOREMS = ["C18_fold_one_to_one", "C18_fold_count", "C18_fold_kinds", "C18_fold_starts_at_first_token",
             "C18_fold_wf", "C18_fold_laminar", "C18_fold_source_order",
             "C18_outline_file_list", "C18_outline_of_file", "C18_outline_entry", "C18_outline_children_order",
-            "C18_outline_children_distinct", "C18_outline_slice_replays", "C18_outline_slice_file_list",
+            "C18_outline_children_distinct", "C18_outline_registration_kept", "C18_outline_slice_total", "C18_outline_slice_replays", "C18_outline_slice_file_list",
             "C18_outline_source_subseq", "C18_outline_source_complete", "C18_outline_visit", "C18_outline_files_complete",
-            "C18_outline_children"]
+            "C18_outline_children", "C18_outline_in_text",
+            "C18_outline_children_in_text"]
 TRUSTED = [
     "Coq 8.16.1 kernel; vm_compute only in the Examples; no axioms (Print Assumptions: closed under the global context)",
     "shared green-tree model coq/model/Tree.v (ranges derived from leaf byte lengths; descendants() = preorder nodes; "
@@ -43,9 +44,16 @@ TRUSTED = [
     "the REAL op log (hook H3, --cfg tablegen_lsp_verif) in the extracted model and comparing its document symbols (name, typ, range, kind, "
     "children) with the real handler's on every generated workspace; the Type strings are not in the log and are taken from the final state",
     "hand model coq/model/OutlineIndex.v of the outline-relevant slice of index.rs (Class/Def/Defset/MultiClass/TemplateArgDecl/FieldDef/"
-    "FieldLet/ParentClassList arms) over the typed AST CoreAst.v (bridge harness/src/bin/coreast.rs, group scope): tied by comparing its op "
-    "sequence with the projection of the REAL op log onto the ops document_symbol depends on, and its outline with the real handler's; that this "
-    "slice yields the outline the STATEMENT describes for every program is covered by the generator oracle (expected outline known by construction), not by proof",
+    "FieldLet/ParentClassList arms) over the typed AST CoreAst.v: tied by comparing its op "
+    "sequence with the projection of the REAL op log onto the ops document_symbol depends on, and its outline with the real handler's. The typed AST "
+    "is computed INSIDE Coq from the texts (group bridge: model parser + coq/model/AstToCore.v + Pipeline.v, extracted unit `bridge`) and must be, "
+    "character for character, the one harness/src/bin/coreast.rs reads off the real parse tree (compared on every generated workspace; when the "
+    "bridge unit is unavailable the harness AST alone is used). That the slice yields the outline the STATEMENT describes is proven for the "
+    "registrations (C18_outline_visit / _files_complete / _children, unconditional since C18_outline_slice_total) and additionally covered by the "
+    "generator oracle (expected outline known by construction)",
+    "C18_outline_in_text / C18_outline_children_in_text only: group bridge's coq/model/Pipeline.v (texts -> workspace) and its theorem PipelineProofs.analyze_wf, over the generated "
+    "grammar / accessor tables coq/gen/GenGrammar.v, GenAst.v, GenLexTables.v as regenerated by C01/C02/C04/C15's translators (not re-run here; a stale "
+    "table shows up as a disagreement between the bridge's AST and the harness AST above)",
 ]
 
 
@@ -157,6 +165,14 @@ def run(ctx):
     # indexer slice (OutlineIndex.v): typed AST of the real trees (harness coreast) -> its op sequence vs the projection of the
     # real op log, and the outline it determines vs the real handler
     cas = L.coreast(bindir, [{"files": w["files"], "root": w["root"]} for w in wss])
+    # ... and the SAME typed AST computed inside Coq from the texts alone (group bridge: model parser -> AstToCore.v ->
+    # Pipeline.v include resolution).  Where it is available the slice is fed from it, so that the chain
+    # texts -> parser model -> bridge -> indexer slice -> Outline.document_symbol runs entirely in extracted Coq and its result is
+    # compared with the real handler; the harness AST must agree with it character for character.
+    cas, bstats, bbad = L.core_from_texts(wss, cas)
+    stats.update(bstats)
+    for b in bbad:
+        found["corr"].append(dict(b, source="generated", text=dict((x, y) for x, y in b["files"]).get(b["root"], "")))
     oix_bad, oix_stats = L.oix_compare(exe, list(zip(wss, dumps, cas)))
     stats.update(oix_stats)
     for b in oix_bad:
@@ -262,6 +278,9 @@ def run(ctx):
                                  "of_which_count_condition_holds (then registered declarations = source declarations, by C18_outline_source_complete)":
                                  stats.get("source_theorem_counts_agree", 0)}
     ctx.cov["indexer_slice_workspaces"] = stats.get("oix_workspaces", 0)
+    ctx.cov["outline_from_texts_inside_coq"] = {"workspaces": stats.get("bridge_core", 0),
+                                                "harness_ast_identical": stats.get("bridge_equal", 0),
+                                                "bridge_unavailable_or_noncore": stats.get("bridge_none", 0)}
     ctx.cov["indexer_slice_ops_compared"] = stats.get("oix_ops", 0)
     ctx.cov["op_logs_replayed"] = stats.get("sym_workspaces", 0)
     ctx.cov["ops_replayed"] = stats.get("sym_ops", 0)
